@@ -133,6 +133,19 @@ T = {
     "C15-J": ("C15", "BayesianNetwork.do no longer materialises its argument", "the nodes given as a one-shot iterator", ["C15"], False),
     "C16-I": ("C16", "per-engine reduce-map cache keyed by node only", "one sampling engine used for forward/rejection and likelihood-weighted sampling on a node with >= 2 parents", ["C07"], False),
     "C16-J": ("C16", "_return_samples skips the number-to-name map when names and numbers are the same set", "integer state names that are a non-identity permutation of 0..k-1", ["C07", "C16"], False),
+    # ---- round 6 (session 3): six properties, K/L
+    "C02-K": ("C02", "BeliefPropagation._query sorts the cliques that contain query / evidence variables", "variable names of unorderable types in one model, a query touching >= 2 cliques", ["C02"], False),
+    "C02-L": ("C02", "clique-tree calibration as two recursive sweeps", "a clique tree with a path of about a thousand cliques (RecursionError)", ["C02"], False),
+    "C06-K": ("C06", "EM E-step multiplies only the CPDs of latents and of variables without a supplied start table", "init_cpds that contain an observed child of a latent variable", ["C06"], False),
+    "C06-L": ("C06", "fit_update: n_prev_samples = n_prev_samples or len(data)", "an explicit n_prev_samples of 0", ["C06"], False),
+    "C07-K": ("C07", "Gibbs kernels of a Markov network: factor product memoised per union scope", "two variables whose factor lists differ but span the same variable set (triangle, pair + unary)", ["C07"], False),
+    "C07-L": ("C07", "forward sampling: uint8 state numbers and a mixed-radix code of the parent configuration (two sites)", "a family with more than 256 parent configurations", ["C07"], False),
+    "C09-K": ("C09", "XMLBIF writer caches the table text per CPD (hash / == ignore the declared parent order)", "two writes in one process of equal CPDs that declare their parents in different orders", ["C09"], False),
+    "C09-L": ("C09", "save / load find the format by endswith() over a set of names, without the dot", "a *.xmlbif name under some hash seeds; a name that merely ends in 'bif' / 'uai'", ["C09"], False),
+    "C12-K": ("C12", "skeleton_to_pdag visits unordered node pairs in its symmetric steps - the directed-path step is not symmetric", "an edge only the directed-path rule can orient whose head precedes its tail in node order", ["C12"], False),
+    "C12-L": ("C12", "parallel PC skips edges unless BOTH endpoints have enough neighbours", "variant='parallel', a separating set of size >= 2 on the higher-degree endpoint's side only", ["C12"], False),
+    "C15-K": ("C15", "remove_nodes_from drops the removed nodes' CPDs while iterating over the live CPD list", ">= 2 removed nodes whose CPDs are neighbours in registration order", ["C15"], False),
+    "C15-L": ("C15", "do() marginalises over the graph parents recorded before cutting, not over the CPD's own evidence", "a CPD out of step with the parent set (edge added after the CPD, or CPD registered with a parent before the edge)", ["C15"], False),
     "C10-G": ("C10", "K2 local score drops the adjustment for parent configurations removed by reindex=False", "K2, a child with >= 3 states and an unobserved parent configuration", ["C10"], False),
     "C10-H": ("C10", "state space of a categorical column taken from the dtype's categories", "no state_names, categorical dtype with a category occurring in no row", ["C10"], False),
     "C17-B": ("C17", "initialize_initial_state pairs parent cardinalities with reversed parent names", "a CPD given for one slice with >= 2 same-slice parents of different cardinalities", ["C17"], True),
